@@ -333,3 +333,51 @@ func replayTable(rc rcase) string {
 	}
 	return "replay: no such table entry (machinery)"
 }
+
+// checkImportAfterWrites: what import() offers is the table's entry also AFTER an
+// earlier script wrote through the result of an import expression without binding
+// it to a name first (handed to a function, assigned through directly): for every
+// package, two members are overwritten that way in one environment, then a fresh
+// environment imports the package and must find the table's values.
+func checkImportAfterWrites(c *common.Ctx, res *common.Result) {
+	var pkgs []string
+	for p := range env.Packages {
+		pkgs = append(pkgs, p)
+	}
+	sort.Strings(pkgs)
+	for _, p := range pkgs {
+		var keys []string
+		for k := range env.Packages[p] {
+			keys = append(keys, k)
+		}
+		sort.Strings(keys)
+		if len(keys) == 0 {
+			continue
+		}
+		k1, k2 := keys[0], keys[len(keys)-1]
+		src := fmt.Sprintf("func patch(m) { m.%s = \"patched\" }\npatch(import(%q))\nimport(%q).%s = \"patched\"", k1, p, p, k2)
+		func() {
+			defer func() { recover() }()
+			vm.Execute(env.NewEnv(), &vm.Options{Debug: false}, src) // whether the writes are allowed is not the point
+		}()
+		e := env.NewEnv()
+		if _, err := vm.Execute(e, &vm.Options{Debug: false}, fmt.Sprintf("m = import(%q)", p)); err != nil {
+			continue // reported by checkTables
+		}
+		m, _ := e.Get("m")
+		mod, ok := m.(*env.Env)
+		if !ok {
+			continue
+		}
+		res.Add("evaluations", 1)
+		res.Add("import_after_write_checks", 1)
+		for _, k := range []string{k1, k2} {
+			v, err := mod.Get(k)
+			if s, isStr := v.(string); err != nil || (isStr && s == "patched") {
+				res.Violate(common.Violation{Class: "import/after-write-through-result", Case: p + "." + k,
+					Detail: fmt.Sprintf("after another environment ran %q a fresh environment's import(%q).%s is %v (err=%v), not the table's entry", src, p, k, v, err),
+					Replay: rcase{Space: "table", Fn: p}})
+			}
+		}
+	}
+}
